@@ -270,12 +270,14 @@ def show(b, n=120):
 
 
 def run(ctx):
-    ctx.proofs()
     hx = ctx.go_build("c18")
+    # the audit of the theorems is independent of the correspondence: run it alongside
+    _pool = concurrent.futures.ThreadPoolExecutor(max_workers=1)
+    _proofs = _pool.submit(ctx.proofs)
     if ctx.quick():
-        nvals, ndocs, coq_docs, coq_vals = 1500, 8000, 720, 180
+        nvals, ndocs, coq_docs, coq_vals = 1200, 6000, 480, 120
     else:
-        nvals, ndocs, coq_docs, coq_vals = 40000, 400000, 8000, 2500
+        nvals, ndocs, coq_docs, coq_vals = 30000, 300000, 4500, 1500
     cmd = [hx, "-seed", str(ctx.seed), "-nvals", str(nvals), "-ndocs", str(ndocs), "-deep", "-deepmax", "5000" if ctx.quick() else "100000"]
     cases = ctx.jsonl(cmd, timeout=800)
     ctx.log("harness produced %d observations" % len(cases))
@@ -377,8 +379,9 @@ def run(ctx):
 
     pool = [c for c in docs if c["cls"] == "pool"]
     others = [c for c in docs if c["cls"] != "pool"]
-    step = max(1, len(others) // max(1, coq_docs - 500))
-    sample_docs = pick([c for c in docs if c.get("_bad")] + pool[:500] + others[::step] + others, coq_docs, lambda c: len(c["d"]) // 2)
+    npool = min(500, coq_docs // 2)
+    step = max(1, len(others) // max(1, coq_docs - npool))
+    sample_docs = pick([c for c in docs if c.get("_bad")] + pool[:npool] + others[::step] + others, coq_docs, lambda c: len(c["d"]) // 2)
     vstep = max(1, len(vals) // max(1, coq_vals))
     sample_vals = pick(vals[::vstep] + vals, coq_vals, lambda c: len(str(c["x"])) // 8)
     terms, refs = [], []
@@ -396,7 +399,7 @@ def run(ctx):
         terms.append("(CVal %s [%s] %s)" % (coq_value(c["x"]), "; ".join(sh), enc))
         refs.append(c)
     ctx.log("evaluating %d documents and %d values in Coq (model, reference, Go copy of the reference)" % (len(sample_docs), len(sample_vals)))
-    bad_model, bad_spec, bad_go, bad_text = coq_eval(ctx, "c18_cases", HEADER + COQ_DEFS, terms, ["model_ok", "spec_ok", "gospec_ok", "text_ok"], shard=300)
+    bad_model, bad_spec, bad_go, bad_text = coq_eval(ctx, "c18_cases", HEADER + COQ_DEFS, terms, ["model_ok", "spec_ok", "gospec_ok", "text_ok"], shard=300 if ctx.quick() else 500)
     if bad_text:
         c = refs[bad_text[0]]
         ctx.notes.append("json.encode text differs from the model's byte for byte on %d sampled value(s) (same denotation unless reported above), e.g. x = %s" % (len(bad_text), str(c["x"])[:200]))
@@ -443,6 +446,8 @@ def run(ctx):
         "encode_text_differences": len(bad_text),
         "valid_disagreements": spec_disagree,
     }
+    _proofs.result()
+    _pool.shutdown()
     return ctx.finish(LEVEL, cov, assumptions=[
         "encoding/json string quoting (Marshal) and unquoting (Unmarshal into string) are oracles: defined in Model.v from their documented behaviour, checked against the real library only through the correspondence",
         "strconv.ParseFloat is the correctly rounded decimal->binary64 conversion C15.Float.dec_to_b64 (ErrRange on overflow, signed zero on underflow); strconv.FormatFloat('g',-1,64) prints the shortest decimal that reads back (digits are a named oracle in the theorems; Python's repr supplies them in the correspondence)",
